@@ -40,6 +40,9 @@ func init() {
 	probes["O28"] = probeO28
 	probes["O29"] = probeO29
 	probes["O30"] = probeO30
+	probes["O31"] = probeO31
+	probes["O32"] = probeO32
+	probes["O33"] = probeO33
 	probes["O23"] = probeO23
 	probes["O24"] = probeO24
 }
@@ -461,5 +464,59 @@ func probeO30() (bool, string) {
 		a.Unpack(&l)
 		got := fmt.Sprint(l[0])
 		return got != "map[b:4]", "FieldReplaceValues(\"0\") next to FieldMergeValues(\"**.a\"), (\"b.b\"): element 0 = " + got + " (must be replaced: map[b:4])"
+	})
+}
+
+type probeV int
+
+func (v probeV) Validate() error {
+	if v < 0 {
+		return fmt.Errorf("negative")
+	}
+	return nil
+}
+
+type probePI int
+
+func (p *probePI) InitDefaults() { *p = -5 }
+func (p probePI) Validate() error {
+	if p < 0 {
+		return fmt.Errorf("negative default")
+	}
+	return nil
+}
+
+func probeO31() (bool, string) {
+	return guard(func() (bool, string) {
+		c, _ := ucfg.NewFrom(map[string]interface{}{"m": map[string]interface{}{"p": 1}})
+		t := struct{ M map[string]probeV }{M: map[string]probeV{"z": -1}}
+		err := c.Unpack(&t)
+		return err == nil, fmt.Sprint(err)
+	})
+}
+
+func probeO32() (bool, string) {
+	return guard(func() (bool, string) {
+		c, _ := ucfg.NewFrom(map[string]interface{}{"x": 1, "l": []interface{}{nil}})
+		t := struct {
+			X int
+			P probePI `config:"p"`
+		}{}
+		t2 := struct{ L []probePI }{}
+		err, err2 := c.Unpack(&t), c.Unpack(&t2)
+		return err == nil || err2 == nil, fmt.Sprint(err, err2)
+	})
+}
+
+func probeO33() (bool, string) {
+	return guard(func() (bool, string) {
+		c, _ := ucfg.NewFrom(map[string]interface{}{"x": 1})
+		sl := []int{1}
+		t := struct {
+			X int
+			S *[]int `config:"s"`
+		}{S: &sl}
+		err := c.Unpack(&t)
+		return err != nil, fmt.Sprint(err)
 	})
 }
